@@ -238,6 +238,8 @@ func ruleFrmVariadic(c *Ctx, r *R) {
 						if lid, ok := x.Lhs[0].(*ast.Ident); ok && c.Obj(lid) == c.Obj(id) && len(x.Rhs) == 1 {
 							if mc, ok := unparen(x.Rhs[0]).(*ast.CallExpr); ok && c.CalleeName(mc) == "builtin.make" {
 								mk = true
+							} else if ok && c.returnsFreshCopy(c.DeclOf(c.Callee(mc))) {
+								mk, cp = true, true // a helper that makes a slice, copies into it and returns it
 							}
 						}
 					case *ast.CallExpr:
@@ -816,4 +818,39 @@ func ruleLayEvalOrder(c *Ctx, r *R) {
 	}
 	r.check(bad == "", "eval order", c.Pos(sc.Clause), "arguments precede the function operand only when they cannot both contain calls",
 		"compile(\"call\") emits the arguments before the function operand on a path that has not established that they do not both contain calls ("+bad+"): `s.pop().sub(s.pop())` pops the argument first (-9 instead of 9), `getF()(arg())` runs arg before getF")
+}
+
+// returnsFreshCopy: the function makes a slice, fills it with copy and returns that slice.
+func (c *Ctx) returnsFreshCopy(fd *ast.FuncDecl) bool {
+	if fd == nil || fd.Body == nil {
+		return false
+	}
+	var made types.Object
+	copied, returned := false, false
+	ast.Inspect(fd.Body, func(n ast.Node) bool {
+		switch x := n.(type) {
+		case *ast.AssignStmt:
+			if len(x.Lhs) == 1 && len(x.Rhs) == 1 {
+				if mc, ok := unparen(x.Rhs[0]).(*ast.CallExpr); ok && c.CalleeName(mc) == "builtin.make" {
+					if id, ok := x.Lhs[0].(*ast.Ident); ok && made == nil {
+						made = c.Obj(id)
+					}
+				}
+			}
+		case *ast.CallExpr:
+			if c.CalleeName(x) == "builtin.copy" && len(x.Args) == 2 {
+				if id, ok := unparen(x.Args[0]).(*ast.Ident); ok && made != nil && c.Obj(id) == made {
+					copied = true
+				}
+			}
+		case *ast.ReturnStmt:
+			if len(x.Results) == 1 {
+				if id, ok := unparen(x.Results[0]).(*ast.Ident); ok && made != nil && c.Obj(id) == made {
+					returned = true
+				}
+			}
+		}
+		return true
+	})
+	return made != nil && copied && returned
 }
